@@ -1176,3 +1176,8 @@ Lemma lit_all :
   /\ (forall ks p, lit_indexes p (map Some ks) = ks)
   /\ (forall j n p, lit_indexes p (Some j :: repeat None n) = seq j (S n)).
 Proof. exact (conj lit_unkeyed (conj lit_keyed lit_after_key)). Qed.
+
+Lemma functype_named_refuted :
+  y_functype_wraps FRet = true /\ y_functype_wraps FConv = true
+  /\ y_functype_wraps FVar = false /\ y_functype_wraps FParam = false /\ g_functype_wraps FVar = true.
+Proof. repeat split; reflexivity. Qed.
